@@ -186,7 +186,7 @@ pub fn check_on(c: &Case, ctx: &mut Ctx, ind: &mut Ind, maxi: &mut Option<Ind>) 
             ctx.fail(
                 format!("C09:{}:{}", name, sym),
                 format!("{} ({} path) step {}: {}; last inputs {:?}", c.cfg.tag(), if c.scalar { "scalar" } else { "bar" }, i, what,
-                    &hist[t.saturating_sub(n + 2)..]),
+                    &hist[t.saturating_sub(n.saturating_add(2))..]),
             )?;
         }
     }
@@ -306,6 +306,33 @@ pub fn run(g: &mut Global) {
     if g.tier == Tier::Thorough {
         g.random("long", 800, &|| strategy(3000, 8000), &check);
     }
+    // window-less period arguments at the top of the usize range (2^31, 2^32, 2^32+1, 2^33, 2^40, 2^53+1, 2^63,
+    // MAX-1, MAX): valid configurations like any other — a period converted through a narrower integer type or
+    // rounded on its way to the smoothing factor builds without complaint and computes something else
+    const BP: [usize; 9] = [1 << 31, 1 << 32, (1 << 32) + 1, 1 << 33, 1 << 40, (1 << 53) + 1, usize::MAX / 2 + 1, usize::MAX - 1, usize::MAX];
+    g.exhaustive(
+        "boundary_periods",
+        9 * 7,
+        &|i| {
+            let b = BP[(i % 9) as usize];
+            let cfg = match i / 9 {
+                0 => Cfg { kind: Kind::Ema, p: vec![b], m: X(0.0) },
+                1 => Cfg { kind: Kind::Atr, p: vec![b], m: X(0.0) },
+                2 => Cfg { kind: Kind::Kc, p: vec![b], m: X(2.0) },
+                3 => Cfg { kind: Kind::Macd, p: vec![12, 26, b], m: X(0.0) },
+                4 => Cfg { kind: Kind::Macd, p: vec![b, 26, 9], m: X(0.0) },
+                5 => Cfg { kind: Kind::Ppo, p: vec![12, b, 9], m: X(0.0) },
+                _ => Cfg { kind: Kind::Ppo, p: vec![12, 26, b], m: X(0.0) },
+            };
+            let vals: Vec<f64> = (0..60).map(|j| 100.0 + if j % 2 == 0 { 10.0 } else { -7.5 } + (j % 7) as f64 * 0.37).collect();
+            if matches!(cfg.kind, Kind::Atr | Kind::Kc) && i % 2 == 1 {
+                Case { cfg, scalar: false, xs: vec![], bars: vals.iter().map(|&x| RawBar { o: x, h: x + 2.0, l: x - 1.5, c: x + 0.5, v: 1.0 }).collect() }
+            } else {
+                Case { cfg, scalar: true, xs: xs(&vals), bars: vec![] }
+            }
+        },
+        &check,
+    );
     // windows beyond 1024 slots ("for every period"): block-wise loops and periodic rebuilds drop a remainder there
     let seedb = g.seed;
     const LP: [usize; 5] = [1025, 1500, 2049, 3000, 4097];
